@@ -375,8 +375,8 @@ func connection(s *engine.Script, o *engine.Outcome, frames []*frame, opt *obs.O
 	sort.Ints(pts)
 
 	var buf []byte
-	expect := 0      // index of the frame the receiver waits for
-	skipUntil := -1  // after a reset: stream offset where the next connection starts
+	expect := 0     // index of the frame the receiver waits for
+	skipUntil := -1 // after a reset: stream offset where the next connection starts
 	emitted := 0
 	earlyDone := map[int]bool{}
 	deliveries := 0
